@@ -602,3 +602,82 @@ func ruleREG5(p *Program) *RuleResult {
 	r.floor("wrappers", 4)
 	return r
 }
+
+// REG6: Overwrite/AppendInto always write the extension field: in
+// updateExtensionsIn every normal return is reached only through the
+// protoreflect Set of the field (an early return would turn "replace all
+// extensions by the empty list" into a no-op).
+func ruleREG6(p *Program) *RuleResult {
+	r := newResult("REG6")
+	fn, err := p.Func("internal/element/extension", "updateExtensionsIn")
+	if err != nil {
+		return r.anchorFail(err)
+	}
+	var setBlock *ssa.BasicBlock
+	var setIns ssa.Instruction
+	for _, b := range fn.Blocks {
+		for _, ins := range b.Instrs {
+			if c, ok := ins.(*ssa.Call); ok && c.Common().IsInvoke() && c.Common().Method.Name() == "Set" {
+				setBlock, setIns = b, ins
+			}
+		}
+	}
+	if setBlock == nil {
+		r.bad("extension.updateExtensionsIn|Set", "updateExtensionsIn never sets the extension field", p.pos(fn.Pos()), "Overwrite/AppendInto have no effect")
+		return r
+	}
+	n := 0
+	for _, b := range fn.Blocks {
+		if _, ok := b.Instrs[len(b.Instrs)-1].(*ssa.Return); !ok {
+			continue
+		}
+		n++
+		r.count("returns", 1)
+		key := fmt.Sprintf("extension.updateExtensionsIn|return#%d", n)
+		if b != setBlock && reachableAvoiding(fn, b, func(x *ssa.BasicBlock) bool { return x == setBlock }) {
+			r.bad(key, "updateExtensionsIn can return without setting the extension field", p.instrPos(b.Instrs[len(b.Instrs)-1]),
+				"Overwrite with an empty list (and SetByURL that removes every extension) leaves the old extensions in place")
+		} else {
+			r.ok(key, "every path to this return passes through the Set of the extension field", p.instrPos(setIns), "must-pass-through over the CFG", true)
+		}
+	}
+	// Overwrite uses NewField (a detached, empty list), AppendInto uses Mutable (the existing list)
+	for _, t := range []struct{ name, accessor string }{{"Overwrite", "NewField"}, {"AppendInto", "Mutable"}} {
+		f, err := p.Func("internal/element/extension", t.name)
+		if err != nil {
+			return r.anchorFail(err)
+		}
+		found := ""
+		for _, b := range f.Blocks {
+			for _, ins := range b.Instrs {
+				c, ok := ins.(*ssa.Call)
+				if !ok || c.Common().StaticCallee() != fn {
+					continue
+				}
+				for _, a := range c.Common().Args {
+					v := a
+					if mi, ok := v.(*ssa.MakeInterface); ok {
+						v = mi.X
+					}
+					if ct, ok := v.(*ssa.ChangeType); ok {
+						v = ct.X
+					}
+					if mc, ok := v.(*ssa.MakeClosure); ok {
+						v = mc.Fn
+					}
+					if ff, ok := v.(*ssa.Function); ok {
+						found = ff.Name()
+					}
+				}
+			}
+		}
+		key := "extension." + t.name + "|accessor"
+		if strings.HasPrefix(found, t.accessor) {
+			r.ok(key, fmt.Sprintf("%s builds on protoreflect.Message.%s", t.name, t.accessor), p.pos(f.Pos()), "function value passed to updateExtensionsIn", true)
+		} else {
+			r.bad(key, fmt.Sprintf("%s passes %q to updateExtensionsIn (expected Message.%s)", t.name, found, t.accessor), p.pos(f.Pos()), "Overwrite must start from an empty list, AppendInto from the existing one")
+		}
+	}
+	r.floor("returns", 1)
+	return r
+}
